@@ -36,7 +36,7 @@ MANIFEST = {
             "2-3 pre-emption schedules and a free-running stress; each concurrent result must equal the sequential result and no call may fail.",
     "note": "Trusted: the scheduler (vf/sched.py) serialises threads correctly; CPython executes the traced line events in program order.",
 }
-BUDGET = {"quick": {"shards": 16, "examples": 12, "wall": 115},
+BUDGET = {"quick": {"shards": 16, "examples": 12, "wall": 170},
           "thorough": {"shards": 16, "examples": 600, "wall": 1700}}
 
 CATALOGUE = [
@@ -55,8 +55,11 @@ CATALOGUE = [
     {"op": "filter", "cond": ["u", ">", 9223372036854775808 + 3]},
     {"op": "filter_ts", "cond": ["d", ">=", 5]},                          # timestamp column (converted statistics)
     {"op": "count_filter", "cond": ["u", "<", 9223372036854775808 + 8]},
+    {"op": "statistics_prop"},                                             # the cached property of the handle
+    {"op": "slice_statistics", "i": 1, "j": 3},                           # ... and of a handle derived from it
 ]
-QUICK_PAIRS = [(0, 3), (3, 0), (2, 3), (3, 2), (7, 3), (3, 7), (8, 3), (10, 3), (11, 12), (12, 11), (14, 13), (13, 12)]
+QUICK_PAIRS = [(0, 3), (3, 0), (2, 3), (3, 2), (7, 3), (3, 7), (8, 3), (10, 3), (11, 12), (12, 11), (14, 13), (13, 12), (15, 16), (16, 15)]
+SYM_DELTAS = [0, 1, 2, 3, 5]
 CHUNK = 150
 MAX_STEPS = 6000
 
@@ -99,6 +102,10 @@ def run_op(op, pf):
     if k == "statistics":
         from fastparquet import api
         return api.statistics(pf)
+    if k == "statistics_prop":
+        return pf.statistics
+    if k == "slice_statistics":
+        return pf[op["i"]:op["j"]].statistics
     if k == "pickle":
         return pickle.loads(pickle.dumps(pf)).to_pandas()
     if k == "count_filter":
@@ -137,8 +144,9 @@ class _Buf(io.BytesIO):
         super().close()
 
 
-def writer_funcs(nthreads):
-    """Writer programs: make_part_file on distinct buffers with a shared FileMetaData / schema."""
+def writer_funcs(nthreads, symmetric=False):
+    """Writer programs: make_part_file on distinct buffers with a shared FileMetaData / schema.
+    symmetric: identical options in every thread (same code path, same number of line steps)."""
     from fastparquet import writer
     dfs = [pd.DataFrame({"x": np.arange(i, i + 6, dtype="int64"), "t": pd.Series(["s%d" % j for j in range(6)], dtype=object),
                          "c": pd.Categorical(["u", "v", "u", "v", "u", "u"])}) for i in range(nthreads)]
@@ -147,7 +155,7 @@ def writer_funcs(nthreads):
     def make(i):
         def f():
             b = _Buf()
-            writer.make_part_file(b, dfs[i], fmd.schema, compression="SNAPPY" if i % 2 else None, fmd=fmd)
+            writer.make_part_file(b, dfs[i], fmd.schema, compression="SNAPPY" if (i % 2 and not symmetric) else None, fmd=fmd)
             return b.final
         return f
     return [make(i) for i in range(nthreads)]
@@ -160,6 +168,14 @@ def enumerate_cases(tier):
             yield {"kind": "single", "a": a, "b": b, "k0": k0, "k1": k0 + CHUNK - 1, "ds": "simple"}
     for k0 in range(1, 1500, CHUNK):
         yield {"kind": "single_writer", "k0": k0, "k1": k0 + CHUNK - 1}
+    # two pre-emptions around the same program point of two threads running the same code: A stops after k steps, B runs
+    # to (about) the same point, A resumes - the shape of check-then-act and save/restore races
+    step = 2 if tier == "quick" else 1
+    for k0 in range(1, 1500, CHUNK // 3):
+        yield {"kind": "sym_writer", "k0": k0, "k1": k0 + CHUNK // 3 - 1, "step": step}
+    for a in ((3, 7, 2, 11) if tier == "quick" else range(len(CATALOGUE))):
+        for k0 in range(1, MAX_STEPS, CHUNK // 3):
+            yield {"kind": "sym", "a": a, "k0": k0, "k1": k0 + CHUNK // 3 - 1, "step": step * 2, "ds": "simple"}
 
 
 @st.composite
@@ -212,13 +228,13 @@ def run_case(case):
     import fastparquet
     kind = case["kind"]
     labels = ["kind:" + kind]
-    if kind in ("single_writer", "writers"):
+    if kind in ("single_writer", "writers", "sym_writer"):
         return _writers(case, labels)
     with common.Scratch() as d:
         df, kw = dataset(case.get("ds", "simple"))
         path = os.path.join(d, "t.parq" if kw.get("file_scheme") != "hive" else "ds")
         fastparquet.write(path, df, **kw)
-        needed = sorted({case["a"], case["b"]} if kind == "single" else set(case["ops"]))
+        needed = sorted({case["a"], case["b"]} if kind == "single" else {case["a"]} if kind == "sym" else set(case["ops"]))
         baselines = {}
         for o in needed:
             baselines[o] = run_op(CATALOGUE[o], fastparquet.ParquetFile(path))
@@ -246,6 +262,28 @@ def run_case(case):
                 if s.preemptions_done and any(o in ("slice", "filter", "filter_ts", "count_filter") for o in (CATALOGUE[a]["op"], CATALOGUE[b]["op"])):
                     sub_nt.append(str(k))
             labels.append("K_A:%s" % ("<500" if K < 500 else "<1500" if K < 1500 else "<3000" if K < 3000 else ">=3000"))
+        elif kind == "sym":
+            a = case["a"]
+            labels += ["A:" + CATALOGUE[a]["op"], "B:" + CATALOGUE[a]["op"]]
+            pf = fastparquet.ParquetFile(path)
+            K, _, err = sched.count_steps(lambda: run_op(CATALOGUE[a], pf))
+            if err is not None:
+                return viol("raised_alone|" + CATALOGUE[a]["op"], exc_detail(err), labels=labels)
+            for k in range(case["k0"], min(case["k1"], K) + 1, case.get("step", 1)):
+                for dlt in SYM_DELTAS:
+                    pf = fastparquet.ParquetFile(path)
+                    plan = [(k, 1), (k + dlt, 0)]
+                    s = sched.Scheduler([lambda: run_op(CATALOGUE[a], pf), lambda: run_op(CATALOGUE[a], pf)], plan, first=0)
+                    try:
+                        results, errors = s.run()
+                    except sched.Deadlock as e:
+                        return viol("deadlock|sym", "plan=%r: %s" % (plan, e), labels=labels)
+                    n_exec += 1
+                    r = _judge([a, a], results, errors, baselines, pf, full, labels, "schedule %r of %d line steps" % (plan, K))
+                    if r:
+                        return r
+                    if s.preemptions_done >= 2:
+                        sub_nt.append("%d+%d" % (k, dlt))
         elif kind == "points":
             ops = case["ops"]
             pf = fastparquet.ParquetFile(path)
@@ -281,9 +319,15 @@ def run_case(case):
 
 def _writers(case, labels):
     n = case.get("nthreads", 2)
-    base = [f() for f in writer_funcs(n)]
+    sym = case["kind"] == "sym_writer"
+    base = [f() for f in writer_funcs(n, sym)]
     n_exec, sub_nt = 0, []
-    if case["kind"] == "single_writer":
+    if sym:
+        K, _, err = sched.count_steps(writer_funcs(n, True)[0])
+        if err is not None:
+            return viol("raised_alone|part", exc_detail(err), labels=labels)
+        plans = [[(k, 1), (k + dlt, 0)] for k in range(case["k0"], min(case["k1"], K) + 1, case.get("step", 1)) for dlt in SYM_DELTAS]
+    elif case["kind"] == "single_writer":
         K, _, err = sched.count_steps(writer_funcs(n)[0])
         if err is not None:
             return viol("raised_alone|part", exc_detail(err), labels=labels)
@@ -292,7 +336,7 @@ def _writers(case, labels):
     else:
         plans = [[tuple(p) for p in case["points"]]]
     for plan in plans:
-        funcs = writer_funcs(n)
+        funcs = writer_funcs(n, sym)
         s = sched.Scheduler(funcs, plan, first=0)
         try:
             results, errors = s.run()
@@ -305,7 +349,7 @@ def _writers(case, labels):
         for i, r in enumerate(results):
             if r != base[i]:
                 return viol("differs|part", "schedule %r: part file %d differs from its sequential bytes" % (plan, i), labels=labels)
-        if s.preemptions_done:
+        if s.preemptions_done >= (2 if sym else 1):
             sub_nt.append(repr(plan))
     out = ok(bool(sub_nt), labels)
     out["sub_evals"] = max(1, n_exec)
